@@ -40,8 +40,9 @@ RULE = ("corpora of 1..3 sentences (all-continuous, with discontinuous trees, on
 PY = "/venv/bin/python" if os.path.exists("/venv/bin/python") else sys.executable
 SRC_FORMATS = ["export", "brackets", "discobrackets", "tigerxml"]
 DEST_FORMATS = ["export", "brackets", "discobrackets", "tigerxml", "terminals"]
-# see c01.DISCO_BASES: 1 = documented index convention, 0 = what the reader implements (F9); base-0
-# sources are in the domain only while the reader accepts them (c01.reader_zero_based), else skipped
+# see c01.DISCO_BASES: 1 = documented index convention (the default of _src), 0 = what the reader
+# implemented before F9 was fixed; base-0 sources are in the domain only while the reader accepts
+# them (c01.reader_zero_based), else skipped
 DISCO_BASES = (0, 1)
 
 
@@ -567,7 +568,7 @@ def _src(fmt, i, rng, base=None):
         return {"fmt": fmt, "kw": [{"layout": "pretty", "root": "empty"}, {"layout": "line", "root": "label"},
                                    {"layout": "compact", "root": "label"}][i % 3]}
     if fmt == "discobrackets":
-        return {"fmt": fmt, "kw": {"base": DISCO_BASES[0] if base is None else base, "layout": ["line", "compact"][i % 2]}}
+        return {"fmt": fmt, "kw": {"base": 1 if base is None else base, "layout": ["line", "compact"][i % 2]}}
     return {"fmt": fmt, "kw": [{"permute": True}, {"permute": True, "secedges": True, "omit_vroot": True}][i % 2], "seed": i}
 
 
@@ -637,9 +638,10 @@ def _items(ctx):
                     yield "disco_to_brackets_refused", w2, _key("skip", w2, use)
                 else:
                     yield "convert", w, _key("convert", w, use)
-            if sf == "discobrackets" and 1 in DISCO_BASES:
-                w = {"specs": corpora[0][1], "src": _src(sf, n, rng, base=1), "steps": [{"fmt": df, "opts": []}]}
-                yield "convert", w, _key("convert-base1", w, corpora[0][1])
+            if sf == "discobrackets" and 0 in DISCO_BASES:
+                # (in the domain only while the reader takes indices as 0-based, see _in_domain)
+                w = {"specs": corpora[0][1], "src": _src(sf, n, rng, base=0), "steps": [{"fmt": df, "opts": []}]}
+                yield "convert", w, _key("convert-base0", w, corpora[0][1])
     # --- long sentences: 10 and more tokens, through every reader and every writer -------
     # (its own generator, seeded from the run's seed, so that the cases above and below stay what they are)
     rng2 = random.Random("c03-long-and-spellings/%s" % ctx.seed)
@@ -651,7 +653,7 @@ def _items(ctx):
                 n += 1
                 use = _for_chain([sf], specs)
                 opts = ["export_four"] if (df == "export" and n % 2) else []
-                w = {"specs": use, "src": _src(sf, n, rng), "steps": [{"fmt": df, "opts": opts}]}
+                w = {"specs": use, "src": _src(sf, n, rng, base=1), "steps": [{"fmt": df, "opts": opts}]}
                 if df == "brackets" and any(not lf.spec_is_continuous(s) for s in use):
                     yield "disco_to_brackets_refused", w, _key("refuse-long", w, use)
                     w2 = dict(w)
@@ -667,14 +669,14 @@ def _items(ctx):
                   [(a, DEST_FORMATS[(j + 1) % len(DEST_FORMATS)]) for j, a in enumerate(SRC_FORMATS)]
     for j, (a, c) in enumerate(through):
         specs = _for_chain([a, c], longs[j % len(longs)])
-        w = {"specs": specs, "src": _src(a, j, rng),
+        w = {"specs": specs, "src": _src(a, j, rng, base=1),
              "steps": [{"fmt": "tigerxml", "opts": []}, {"fmt": c, "opts": []}]}
         clause = "chain_aba" if a == c else "chain_abc"
         yield clause, w, _key("long-through-tigerxml", w, specs)
     for j, bf in enumerate(SRC_FORMATS):
         for sf in (["export"] if ctx.quick else SRC_FORMATS):
             specs = _for_chain([sf, bf], longs[j % len(longs)])
-            w = {"specs": specs, "src": _src(sf, j, rng), "steps": [{"fmt": bf, "opts": []}]}
+            w = {"specs": specs, "src": _src(sf, j, rng, base=1), "steps": [{"fmt": bf, "opts": []}]}
             yield "self_roundtrip", w, _key("self-long", w, specs)
     # --- a TIGER-XML source without lemma attributes (absent optional field) ----------------
     for df, opts in (("tigerxml", []), ("export", ["export_four"]), ("export", [])):
@@ -724,7 +726,7 @@ def _items(ctx):
     firsts = [ENC_SPELLINGS[fam][0] for fam in ("utf-8", "latin-1", "utf-16")]
 
     def enc_case(sf, j, se, steps):
-        src = _src(sf, j, rng)
+        src = _src(sf, j, rng, base=1)
         if sf == "export":
             src["kw"] = {"version": 4}
         return {"specs": _for_chain([sf] + [st["fmt"] for st in steps], lat), "src": src, "src_enc": se, "steps": steps}
